@@ -69,6 +69,8 @@ def pack_ins(evs):
                 diff = sorted(k for k in set(d) | set(last_ckpt_digest) if d.get(k) != last_ckpt_digest.get(k))
                 b["digest_ok"], b["digest_diff"] = (not diff), ",".join(diff)
             b["sched_ok"] = bool(not b["digest_ok"] or e.get("sched") == last_ckpt_sched)
+            # the flows restored from the level directories are the flows that were in memory at the checkpoint
+            b["flows_ok"] = bool(last_ckpt_digest is None or d.get("flows") == last_ckpt_digest.get("flows"))
         if ev in ("done", "done_again"):
             if first_done is None:
                 first_done = e
